@@ -162,6 +162,8 @@ def run(ctx, rep):
             rep.oblig(r4, ok)
             if not ok:
                 rep.violate(Violation(r4, '%s:%d in %s' % (IR.rel(fn.file), fn.line, name), '%s makes a call (may block) even when the once word already holds the done value' % name, site='%s/done-path-call' % name))
+    rep.rule('C07.R6', 'the API entry points are functions for clients of the public headers (no macro interposes its own fast path or evaluates arguments twice)')
+    util.check_api_not_macros(ctx, rep, 'C07.R6', ('nsync_run_once',))
     rep.floor('C07.R1', 8)
     rep.floor('C07.R2', 4)
     rep.floor('C07.R3', 8)
